@@ -344,7 +344,7 @@ class HTTPRequestParser:
             expect = headers.get("EXPECT", "").lower()
             self.expect_continue = expect == "100-continue"
 
-            if connection.lower() == "close":
+            if "close" in [t.strip(" \t") for t in connection.lower().split(",")]:
                 self.connection_close = True
 
         if not self.chunked:
